@@ -144,7 +144,7 @@ func dModes(g *G) {
 		}
 	}
 	total := len(fin) * len(fin) * len(base)
-	walk(g.R, total, g.pick(6000, 400000), func(i int) {
+	walk(g.R, total, g.pick(6000, 100000), func(i int) {
 		c := base[i%len(base)]
 		x := fin[(i/len(base))%len(fin)]
 		y := fin[i/(len(base)*len(fin))]
@@ -152,7 +152,7 @@ func dModes(g *G) {
 			g.emit(gModes(op, c, x, y, 0), "modes/"+op)
 		}
 	})
-	n := g.pick(2500, 150000)
+	n := g.pick(2500, 30000)
 	for i := 0; i < n; i++ {
 		c := g.R.randCtxL(30)
 		span := 25
@@ -215,7 +215,7 @@ func dRel(g *G) {
 			f(c, x, y)
 		}
 	}
-	pairs(g.pick(12000, 600000), func(c Ctx, x, y Dec) {
+	pairs(g.pick(12000, 120000), func(c Ctx, x, y Dec) {
 		g.emit(gPair("swap", "add", c, x, y, 0, 0), "swap/add")
 		g.emit(gPair("swap", "mul", c, x, y, 0, 0), "swap/mul")
 		g.emit(gPair("subneg", "sub", c, x, y, 0, 0), "subneg")
@@ -235,7 +235,7 @@ func dRel(g *G) {
 		}
 	})
 	// monotonicity of Round: ascending lists
-	n := g.pick(1500, 60000)
+	n := g.pick(1500, 20000)
 	for i := 0; i < n; i++ {
 		c := cs[g.R.Intn(len(cs))]
 		if g.R.bool() {
